@@ -24,6 +24,7 @@ type Gen struct {
 	RawPct      int  // percent of JSON inputs delivered as a hand-written byte string (padding, escapes, or malformed)
 	Links       bool // file ops also create symlinks (C20)
 	RepeatPct   int  // percent of result attachments that are repeated verbatim
+	AimPct      int  // percent of commands found by searching the model for a rare outcome class (aim.go)
 	lastRes     *Cmd
 	wantCompact bool
 	// avoid triggers of open known findings in most runs (see DESIGN 5)
@@ -39,7 +40,7 @@ func defaultWeights() map[string]int {
 
 func NewGen(seed uint64) *Gen {
 	return &Gen{R: NewSplitMix(seed), W: defaultWeights(), Text: "plain", Modes: []string{"json", "json", "json", "flags", "bodystdin"},
-		Agents: []string{"a1@h", "a2@h", "a3@h"}, BadBias: 12, Human: 5, Avoid: map[string]bool{}}
+		Agents: []string{"a1@h", "a2@h", "a3@h"}, BadBias: 12, Human: 5, AimPct: 3, Avoid: map[string]bool{}}
 }
 
 func (g *Gen) pick(w map[string]int) string {
@@ -266,6 +267,11 @@ func (g *Gen) next(m *Model) Step {
 }
 
 func (g *Gen) next2(m *Model) Step {
+	if g.AimPct > 0 && g.R.Intn(100) < g.AimPct {
+		if st, ok := g.aim(m); ok {
+			return st
+		}
+	}
 	fam := g.pick(g.W)
 	human := g.R.Intn(100) < g.Human
 	switch fam {
@@ -527,6 +533,23 @@ func (g *Gen) addResult(c *Cmd) {
 		p = g.oneOf("lnk/tofile", "lnk/tofile", "lnk/todir", "lnk/dangling", "lnk/outside", "lnk/todir/r0.md")
 	} else if g.bad() || g.R.Chance(1, 6) {
 		p = g.oneOf("/etc/passwd", "../outside.txt", "out/../../x", ".ergo/plans.jsonl", ".ergo", "out", "missing.txt", "", "out/../r0.txt", "./r0.txt", "out//r0.md", ".ergo/../r0.txt", "..hidden/x", "out/..", "a/../../b")
+	}
+	if p != "" && !strings.HasPrefix(p, "/") && g.R.Chance(1, 3) {
+		// the same place spelled differently: only the cleaned path counts
+		for k := 1 + g.R.Intn(2); k > 0; k-- {
+			switch g.R.Intn(5) {
+			case 0:
+				p = "./" + p
+			case 1:
+				p = "out/../" + p
+			case 2:
+				p = strings.Replace(p, "/", "//", 1)
+			case 3:
+				p = "docs/../deep/../" + p
+			case 4:
+				p = "././" + p
+			}
+		}
 	}
 	c.RPath = sp(p)
 	s := g.text("title")
